@@ -155,9 +155,13 @@ impl Compactor {
 			None
 		};
 
+		#[cfg(feature = "verif")]
+		crate::verif::yield_sync("compact.pre_manifest");
 		// Update manifest - this will commit the guard on success
 		self.update_manifest(input, new_table, &mut guard)?;
 
+		#[cfg(feature = "verif")]
+		crate::verif::yield_sync("compact.pre_cleanup");
 		self.cleanup_old_tables(input);
 
 		Ok(())
@@ -179,6 +183,8 @@ impl Compactor {
 		// This is a snapshot of the snapshot list at the start of compaction.
 		// Any snapshots created during compaction will be handled by the next compaction.
 		let snapshots = self.options.snapshot_tracker.get_all_snapshots();
+		#[cfg(feature = "verif")]
+		crate::verif::yield_sync("compact.post_snapshots");
 
 		// Create a compaction iterator that filters tombstones and respects snapshots
 		let max_level = self.options.lopts.level_count - 1;
